@@ -1,5 +1,6 @@
 /- helper lemmas for C13 (not property theorems) -/
 import OQ.Model.C13
+import OQ.Generated.Translated
 import Mathlib.Tactic.Linarith
 import Mathlib.Tactic.Ring
 import Mathlib.Tactic.FieldSimp
@@ -287,5 +288,11 @@ theorem roundHalfEven_pos (q : Rat) (h : 0 < roundHalfEven q) : 0 < q := by
   · omega
   · have : ⌊q⌋ = 0 := by omega
     rw [this] at c3; simp at c3
+
+theorem flatten_replicate_singleton {α : Type} (k : Nat) (x : α) :
+    (List.replicate k [x]).flatten = List.replicate k x := by
+  induction k with
+  | zero => rfl
+  | succ k ih => simp [List.replicate_succ, ih]
 
 end OQ.C13
